@@ -90,6 +90,13 @@ type Policy struct {
 	// PCT: if >0, tasks get random priorities and the highest runs, with
 	// PCTChange priority change points spread over the run.
 	PCT bool
+	// SpawnDelayPermille / SpawnDelayMaxNs: probability that a goroutine started by the code
+	// under test only begins to run after a virtual delay of up to SpawnDelayMaxNs (the Go
+	// scheduler promises nothing about when a new goroutine first runs; without this, every
+	// new goroutine reaches its first blocking point before virtual time advances at all).
+	SpawnDelayPermille int
+	SpawnDelayMaxNs    int64
+	spawn              *Rand
 }
 
 // Sim is one simulation run.
@@ -393,6 +400,15 @@ func Go(name string, fn func()) {
 		return
 	}
 	t := s.newTask(owner, pname, fn)
+	if p := &s.Policy; p.SpawnDelayPermille > 0 && p.SpawnDelayMaxNs > 0 {
+		if p.spawn == nil {
+			p.spawn = NewRand(s.Seed, "spawn-delay")
+		}
+		if p.spawn.Intn(1000) < p.SpawnDelayPermille {
+			s.After(p.spawn.Range(1, p.SpawnDelayMaxNs), func() { s.makeRunnable(t) })
+			return
+		}
+	}
 	s.makeRunnable(t)
 }
 
